@@ -333,6 +333,56 @@ func typed(c *explore.Ctx) {
 	}
 }
 
+// ---- deeply nested values that share memory without being cyclic (cycle tracking starts 1000 levels down)
+
+type viewOfSelf struct {
+	Arr [2]int
+	S   []int
+}
+
+var sharedShapes = []struct {
+	name string
+	mk   func() any
+}{
+	{"slice holding a shorter view of itself", func() any { s := make([]any, 2); s[1] = s[:1]; return s }},
+	{"struct whose slice field views its own leading array", func() any { v := &viewOfSelf{Arr: [2]int{1, 2}}; v.S = v.Arr[:]; return v }},
+	{"the same map twice as siblings", func() any { m := map[string]any{"a": 1}; return []any{m, m, map[string]any{"k": m}} }},
+	{"the same pointer twice as siblings", func() any { p := &viewOfSelf{}; return []any{p, p, []any{p}} }},
+	{"the same slice at two depths", func() any { s := []any{1, 2}; return []any{s, []any{s, []any{s}}} }},
+	{"empty slices of one backing array", func() any { b := make([]any, 0, 4); return []any{b, b[:0], []any{b}} }},
+}
+
+func deepShared(c *explore.Ctx) {
+	sh := sharedShapes[c.Choose(len(sharedShapes))]
+	depth := []int{0, 998, 999, 1000, 1001, 1100}[c.Choose(6)]
+	wrap := c.Choose(3)
+	v := sh.mk()
+	for i := 0; i < depth; i++ {
+		switch wrap {
+		case 0:
+			v = []any{v}
+		case 1:
+			v = map[string]any{"k": v}
+		case 2:
+			x := v
+			v = &x
+		}
+	}
+	seg := guard(func() ([]byte, error) { return json.Marshal(v) })
+	ref := guard(func() ([]byte, error) { return stdjson.Marshal(v) })
+	switch {
+	case seg.pv != nil:
+		c.Fail("deep-shared:panic:"+seg.ps, "Marshal panics for a %s under %d levels: %v", sh.name, depth, seg.pv)
+	case (seg.err == nil) != (ref.err == nil):
+		c.Fail("deep-shared:error-differs:"+sh.name, "Marshal of a %s under %d levels (wrapper %d): error %v, encoding/json %v", sh.name, depth, wrap, seg.err, ref.err)
+	case seg.err == nil && !bytes.Equal(seg.b, ref.b):
+		c.Fail("deep-shared:bytes-differ:"+sh.name, "Marshal of a %s under %d levels differs from encoding/json", sh.name, depth)
+	}
+	c.NontrivialStr("deepshared", sh.name, fmt.Sprint(depth, wrap))
+	c.Outcome(fmt.Sprintf("err=%v", ref.err != nil))
+	c.Case(map[string]any{"value": sh.name, "levels": depth, "wrapper": wrap})
+}
+
 type failingWriter struct{}
 
 func (failingWriter) Write(p []byte) (int, error) { return 0, errors.New("write failed") }
@@ -628,6 +678,7 @@ func Spec() *explore.Spec {
 	return &explore.Spec{
 		ID: "C01",
 		Families: []*explore.Family{
+			{Name: "deep-shared", ShardDepth: 2, Body: deepShared, Doc: "6 values that share memory without being cyclic (a slice holding a shorter view of itself, a struct whose slice views its own array, the same map / pointer / slice reached twice) under 0, 998..1001, 1100 levels of []any / map / pointer nesting: same bytes and errors as encoding/json"},
 			{Name: "typed", ShardDepth: 1, Body: typed, Doc: "type shapes to depth 2 (40 leaves incl. 14 method-bearing ones, 18 hand-written embedding/tag/recursion structs, maps of 10 key kinds, 1/31/32/33/40-field structs; wrappers: pointer, pointer-to-pointer, slice, arrays of 0/1/2, maps, single- and two-field structs x 10 tag forms) x boundary values x {by value, by pointer} x {Marshal, Append, MarshalIndent x 2, Encoder x escapeHTML x indent}"},
 			{Name: "string-sweep", Body: stringSweep, Doc: "every (length 0..40/72, position, byte value 0..255) single deviation from a plain string and special runes at every position x escapeHTML on/off x Escape/AppendEscape"},
 			{Name: "string-pairs", ShardDepth: 2, Body: stringPairs, Doc: "all pairs of special bytes at all position pairs for lengths 2..17"},
